@@ -79,6 +79,7 @@ def evidence(c):
         lowest_covered_functions=sorted(((round(100.0 * h / t), f, h, t) for f, (h, t) in percov.items() if t >= 8 and h > 0), key=lambda x: x[0])[:25],
         footprint_ops_in_solo_pass=st.get('footprint_ops', 0),
         static_objects_written_only_by_one_time_initialisers_exempt_from_S=sorted(c['batch'].once_syms),
+        conflict_point_schedules_enumerated_in_adjacent_plans=st.get('enumerated_conflict_schedules', 0),
         calls_compared_with_renewed_thread_state=st.get('carry_ops', 0),
         digest_mismatches=st.get('mismatches', 0),
         unstable_candidates=st.get('unstable', 0) + len(c['batch'].unstable),
